@@ -15,6 +15,14 @@ weights over Qc).  Tie to /repo on every run:
 * correspondence — the exact Coq model (vm_compute) against the implementation on dyadic inputs:
   hard_polar / hard_potential / tie_if / tomo_hard entrywise, `orthogonalize` through
   sqrt(s_i) * u_i computed here from the model's rationals, apply_weights / weight_scales.
+
+Round 3 (coverage extension): the wrappers ObjectDIP / ProbeDIP / ProbeParametric / tomography
+ObjectDIP through their public constructors (a pass-through network whose output is a free
+parameter tensor), soft-constraint entries in the constraint dictionaries (must not change the
+object), center_probe (one common shift: orthogonality survives), the clamp_min branch of the
+orthogonalisation (zero modes, exactly dependent modes, modes shorter than 1e-12) and ties in the
+mode intensities against `orthogonalize_c eps2_code`, zero / all-negative requested weights, every
+tomography combination (negative and zero shrinkage, ignored dictionary keys, soft tv_vol).
 """
 from __future__ import annotations
 
@@ -55,6 +63,27 @@ Definition w_case (mean : Q) (raw I : list Q) :=
   let w := norm_weights (map Q2Qc raw) in
   (map (fun x => showq (this x)) (apply_weights (Q2Qc mean) w (map Q2Qc I)),
    map (fun x => showq (this x)) (weight_scales (Q2Qc mean) w (map Q2Qc I))).
+(* round 3: the orthogonalisation WITH the clamp_min guard (orthogonalize_c eps2_code), exact output.
+   Gaussian integers scaled by 2^-sh; per output mode (s, intensity, u) as exact rationals; per input
+   mode the flags (residual = 0, residual >= eps) of the UNCLAMPED Gram-Schmidt residuals *)
+Definition zcs (sh : Z) (ab : Z * Z) : C :=
+  (Q2Qc (Qdiv (inject_Z (fst ab)) (inject_Z (2 ^ sh))), Q2Qc (Qdiv (inject_Z (snd ab)) (inject_Z (2 ^ sh)))).
+Definition gs_flags (vs : list (list C)) :=
+  map (fun u => (qc_leb (norm2 u) 0, qc_leb eps2_code (norm2 u))) (gs vs).
+Definition gsc_case (sh : Z) (ps : list (list (Z * Z))) :=
+  let vs := map (map (zcs sh)) ps in
+  (map (fun m : Qc * list C => (showq (this (fst m)), showq (this (mode_intensity m)),
+                               map (fun z : C => (showq (this (fst z)), showq (this (snd z)))) (snd m)))
+       (orthogonalize_c eps2_code vs),
+   gs_flags vs,
+   map (fun pu => showq (this (kept_intensity (fst pu) (snd pu)))) (combine vs (gs vs))).
+(* Gaussian-integer stacks with zero modes: fixed-point rendering as gs_case *)
+Definition gscf_case (ps : list (list (Z * Z))) :=
+  let vs := map (map zc) ps in
+  (map (fun m : Qc * list C => (fx (fst m), showq (this (mode_intensity m)),
+                               map (fun z : C => (fx (fst z), fx (snd z))) (snd m)))
+       (orthogonalize_c eps2_code vs),
+   gs_flags vs).
 Open Scope Q_scope.
 """
 
@@ -140,25 +169,87 @@ def case_raw(case):
             ).astype(np.complex64).reshape(S, H, W)
 
 
-def obj_out(case, raw=None, cfg=None):
-    """what the object model hands to the forward model: ObjectPixelated.obj (public route:
-    from_array -> reset -> mask setter -> constraints setter -> obj)"""
-    from quantem.diffractive_imaging.object_models import ObjectPixelated
+_PASS = {}
+
+
+def passthrough(raw):
+    """a 'network' for the DIP wrappers whose output is a free parameter tensor (so that any raw value
+    can be what the optimiser has driven the model to): forward(x) = 0 * x + raw"""
+    import torch
+    if "cls" not in _PASS:
+        class Passthrough(torch.nn.Module):
+            def __init__(self, raw):
+                super().__init__()
+                self.raw = torch.nn.Parameter(torch.as_tensor(raw))
+                self.dtype = self.raw.dtype          # the quantem network blocks carry .dtype
+
+            def forward(self, x):
+                return x * 0 + self.raw[None]
+        _PASS["cls"] = Passthrough
+    return _PASS["cls"](raw)
+
+
+def obj_model(case, raw=None, cfg=None):
+    """the object model of the case: ObjectPixelated (from_array -> reset) or, case['wrap'] == 'dip',
+    ObjectDIP.from_model around a pass-through network; mask and constraints set through the setters"""
+    import torch
+    from quantem.diffractive_imaging.object_models import ObjectDIP, ObjectPixelated
     S, H, W = case["shape"]
     raw = case_raw(case) if raw is None else raw
     cfg = dict(case["cfg"] if cfg is None else cfg)
-    om = ObjectPixelated.from_array(raw, obj_type=case["ty"], slice_thicknesses=2.0)
-    om.reset()
+    if case.get("wrap") == "dip":
+        t = torch.as_tensor(raw)
+        om = ObjectDIP.from_model(passthrough(raw), torch.zeros((S, H, W), dtype=t.dtype), num_slices=S,
+                                  slice_thicknesses=2.0, obj_type=case["ty"], input_noise_std=0.0)
+    else:
+        om = ObjectPixelated.from_array(raw, obj_type=case["ty"], slice_thicknesses=2.0)
+        om.reset()
     om.constraints = cfg
     if case["mask"] is not None:
         om.mask = np.array(case["mask"], dtype=np.float32).reshape(H, W)
+    return om, cfg
+
+
+def obj_out(case, raw=None, cfg=None):
+    """what the object model hands to the forward model: ObjectPixelated.obj / ObjectDIP.obj (public
+    route: constructor -> mask setter -> constraints setter -> obj)"""
+    om, cfg = obj_model(case, raw, cfg)
+    if case["mask"] is not None:
         out = om.obj
     elif case["ty"] == "potential" and cfg.get("fix_potential_baseline"):
         # no FOV mask configured: the `mask is None` branch is only reachable by the direct call
-        out = om.apply_hard_constraints(om.params, mask=None)
+        out = om.apply_hard_constraints(om._obj, mask=None)
     else:
         out = om.obj
     return out.detach().cpu().numpy().copy()
+
+
+SOFT_KEYS = ("tv_weight_z", "tv_weight_xy", "surface_zero_weight")
+
+
+def obj_soft_check(case, out):
+    """soft-constraint entries are loss terms: neither their presence in the dictionary nor
+    evaluating them may change the object handed to the forward model -> list of (key, what)"""
+    import warnings
+    cfg = case["cfg"]
+    if not any(cfg.get(k) for k in SOFT_KEYS) or (case["mask"] is None and case["ty"] == "potential"
+                                                 and cfg.get("fix_potential_baseline")):
+        return []
+    bad = []
+    hard = {k: v for k, v in cfg.items() if k not in SOFT_KEYS and k != "butterworth_order"}
+    ref = obj_out(case, cfg=hard)
+    if not np.array_equal(ref, out, equal_nan=True):
+        bad.append(("soft-constraint-changes-object", "the soft-constraint entries %s change obj_model.obj (max |diff| %g)"
+                    % ({k: cfg.get(k) for k in SOFT_KEYS}, float(np.nanmax(np.abs(ref - out))))))
+    om, _ = obj_model(case)
+    with warnings.catch_warnings():
+        warnings.simplefilter("ignore")
+        loss = om.apply_soft_constraints(om.obj, om.mask)
+    again = om.obj.detach().cpu().numpy()
+    if not np.array_equal(again, out, equal_nan=True):
+        bad.append(("soft-constraint-changes-object", "evaluating apply_soft_constraints (loss %r) changes obj_model.obj "
+                    "(max |diff| %g)" % (float(loss), float(np.nanmax(np.abs(again - out))))))
+    return bad
 
 
 def obj_oracle(case, out=None):
@@ -247,11 +338,16 @@ def gen_mask(r, g, H, W, dyadic=False):
 
 
 def gen_cfg(r, masked_possible):
-    return {"positivity": r.random() < 0.7,
-            "fix_potential_baseline": r.random() < 0.5,
-            "fix_potential_baseline_factor": r.choice([1.0, 1.0, 0.5, 0.25, 0.0, 1.5]),
-            "identical_slices": r.random() < 0.35,
-            "apply_fov_mask": masked_possible and r.random() < 0.75}
+    cfg = {"positivity": r.random() < 0.7,
+           "fix_potential_baseline": r.random() < 0.5,
+           "fix_potential_baseline_factor": r.choice([1.0, 1.0, 0.5, 0.25, 0.0, 1.5]),
+           "identical_slices": r.random() < 0.35,
+           "apply_fov_mask": masked_possible and r.random() < 0.75}
+    if r.random() < 0.35:
+        # soft constraints and the filter order WITHOUT a filter (q_lowpass = q_highpass = None): loss terms only
+        cfg.update({"tv_weight_z": r.choice([0, 0.1, 1.0]), "tv_weight_xy": r.choice([0, 0.05, 2.0]),
+                    "surface_zero_weight": r.choice([0, 0.3]), "butterworth_order": r.choice([2, 4, 6])})
+    return cfg
 
 
 def gen_obj_case(r):
@@ -261,7 +357,8 @@ def gen_obj_case(r):
     H, W = r.randint(1, 6), r.randint(1, 6)
     n = S * H * W
     mask, mkind = gen_mask(r, g, H, W)
-    case = {"kind": "obj", "ty": ty, "shape": [S, H, W], "mask": mask, "mask_kind": mkind, "cfg": gen_cfg(r, mask is not None)}
+    case = {"kind": "obj", "ty": ty, "shape": [S, H, W], "mask": mask, "mask_kind": mkind, "cfg": gen_cfg(r, mask is not None),
+            "wrap": r.choice(["pixelated", "pixelated", "pixelated", "dip"])}
     mag = r.choice(["unit", "large", "small", "mixed", "extreme"])
     case["mag_kind"] = mag
     if mag == "unit":
@@ -296,7 +393,8 @@ def gen_obj_dyadic(r):
     n = S * H * W
     mask, mkind = gen_mask(r, g, H, W, dyadic=True)
     cfg = gen_cfg(r, mask is not None)
-    case = {"kind": "objd", "ty": ty, "shape": [S, H, W], "mask": mask, "mask_kind": mkind, "cfg": cfg}
+    case = {"kind": "objd", "ty": ty, "shape": [S, H, W], "mask": mask, "mask_kind": mkind, "cfg": cfg,
+            "wrap": r.choice(["pixelated", "pixelated", "dip"])}
     if ty == "potential":
         case["raw"] = [r.randint(-32, 32) / 8 for _ in range(n)]
     else:
@@ -393,24 +491,39 @@ def objd_correspond(case, obs, vals):
 # tomography object (clamp / shrinkage)
 
 def gen_tomo_case(r):
+    """every combination of the two entries apply_hard_constraints reads: positivity x shrinkage
+    (off / 0.0 (falsy) / positive / negative), the entries it ignores, the soft tv_vol entry; through
+    ObjectVoxelwise or the ObjectDIP wrapper"""
     d, h, w = r.randint(1, 3), r.randint(1, 3), r.randint(1, 4)
     return {"kind": "tomo", "shape": [d, h, w], "raw": [r.randint(-40, 40) / 16 for _ in range(d * h * w)],
-            "positivity": r.random() < 0.7, "shrinkage": r.choice([False, False, 0.25, 0.5, 1.0, 0.0625])}
+            "positivity": r.random() < 0.6,
+            "shrinkage": r.choice([False, False, 0.0, 0.25, 0.5, 1.0, 0.0625, -0.5, -0.125]),
+            "extra": r.choice([{}, {}, {"fourier_filter": True}, {"circular_mask": True}, {"fourier_filter": True, "circular_mask": True}]),
+            "tv_vol": r.choice([0, 0, 0.5]), "wrap": r.choice(["voxelwise", "voxelwise", "dip"])}
 
 
 def tomo_out(case):
     import torch
-    from quantem.tomography.object_models import ObjectVoxelwise
+    from quantem.tomography.object_models import ObjectDIP, ObjectVoxelwise
+    vol = np.array(case["raw"], dtype=np.float32).reshape(case["shape"])
+    hard = {"positivity": case["positivity"], "shrinkage": case["shrinkage"], **case.get("extra", {})}
+    if case.get("wrap") == "dip":
+        ov = ObjectDIP(passthrough(vol[None]), tuple(case["shape"]), model_input=torch.zeros((1, 1) + tuple(case["shape"])))
+        ov.hard_constraints = hard
+        ov.soft_constraints = {"tv_vol": case.get("tv_vol", 0)}
+        return ov.obj.detach().cpu().numpy()[0].copy()
     ov = ObjectVoxelwise(tuple(case["shape"]), "cpu")
-    ov.hard_constraints = {"positivity": case["positivity"], "shrinkage": case["shrinkage"]}
-    ov.obj = torch.tensor(np.array(case["raw"], dtype=np.float32).reshape(case["shape"]))
+    ov.hard_constraints = hard
+    ov.soft_constraints = {"tv_vol": case.get("tv_vol", 0)}
+    ov.obj = torch.tensor(vol)
     return ov.obj.detach().cpu().numpy().copy()
 
 
 def tomo_oracle(case, out):
-    if case["positivity"] and not bool(np.all(out >= 0)):
-        return [("tomography-negative", "tomography volume under positivity (shrinkage %s) has value %r"
-                 % (case["shrinkage"], float(np.nanmin(out))))]
+    # C10_tomo_nonneg: positivity or an active shrinkage (any sign) gives a non-negative volume
+    if (case["positivity"] or case["shrinkage"]) and not bool(np.all(out >= 0)):
+        return [("tomography-negative", "tomography volume under positivity=%s, shrinkage=%s has value %r"
+                 % (case["positivity"], case["shrinkage"], float(np.nanmin(out))))]
     return []
 
 
@@ -457,8 +570,17 @@ def gen_probe_case(r, dyadic=False):
         rel = np.array([r.choice([1.0, 0.5, 2.0, 0.1, 3.0, 0.7, 1.3]) * g.uniform(0.8, 1.2) for _ in range(K)])
         P = P * (scale * rel * np.exp(1j * g.uniform(-math.pi, math.pi, K)))[:, None]
     P = P.reshape(K, h, w).astype(np.complex64)
-    return {"kind": "gsd" if dyadic else "gs", "K": K, "roi": [h, w], "rho": rho,
+    case = {"kind": "gsd" if dyadic else "gs", "K": K, "roi": [h, w], "rho": rho,
             "re": [float(x) for x in P.real.ravel()], "im": [float(x) for x in P.imag.ravel()]}
+    if not dyadic:
+        # round 3: the probe constraint dictionary (center_probe after the orthogonalisation, a soft
+        # tv_weight) and the ProbeDIP wrapper
+        case["center"] = r.random() < 0.3
+        case["tv_weight"] = r.choice([0.0, 0.0, 0.1])
+        case["wrap"] = r.choice(["pixelated", "pixelated", "dip"])
+    else:
+        case["wrap"] = r.choice(["pixelated", "pixelated", "dip"])
+    return case
 
 
 def case_probe(case):
@@ -468,13 +590,44 @@ def case_probe(case):
             ).astype(np.complex64).reshape(K, h, w)
 
 
-def gs_out(case):
-    """ProbePixelated.probe for the raw parameter tensor (default constraints: orthogonalize_probe)"""
-    from quantem.diffractive_imaging.probe_models import ProbePixelated
+def probe_model(case):
+    import torch
+    from quantem.diffractive_imaging.probe_models import ProbeDIP, ProbePixelated
     P = case_probe(case)
-    pm = ProbePixelated.from_array(P.copy())
-    pm.probe = P.copy()                         # the value the optimiser has driven the parameter to
-    return pm.probe.detach().cpu().numpy().copy()
+    K, h, w = P.shape
+    if case.get("wrap") == "dip":
+        pm = ProbeDIP.from_model(passthrough(P.copy()), model_input=torch.zeros((1, K, h, w), dtype=torch.complex64),
+                                 num_probes=K, roi_shape=(h, w), input_noise_std=0.0)
+    else:
+        pm = ProbePixelated.from_array(P.copy())
+        pm.probe = P.copy()                     # the value the optimiser has driven the parameter to
+    cons = {}
+    if case.get("center"):
+        cons["center_probe"] = True
+    if case.get("tv_weight"):
+        cons["tv_weight"] = case["tv_weight"]
+    if cons:
+        pm.constraints = cons
+    return pm
+
+
+def gs_out(case):
+    """ProbePixelated.probe / ProbeDIP.probe for the raw parameter tensor (default constraints:
+    orthogonalize_probe; optionally center_probe and the soft tv_weight)"""
+    pm = probe_model(case)
+    out = pm.probe.detach().cpu().numpy().copy()
+    if case.get("tv_weight"):
+        pm.apply_soft_constraints(pm.probe)      # a loss term: must not change what .probe returns
+        again = pm.probe.detach().cpu().numpy()
+        if not np.array_equal(again, out, equal_nan=True):
+            case["_soft_changed"] = float(np.nanmax(np.abs(again - out)))
+    return out
+
+
+def gs_oracle_uncentred_fails(case):
+    """does the orthogonality clause already fail without center_probe?  (classifies the finding)"""
+    c2 = {k: v for k, v in case.items() if k not in ("center", "_soft_changed")}
+    return any(k == "modes-not-orthogonal" for k, _ in gs_oracle(c2, gs_out(c2)))
 
 
 def gs_oracle(case, out):
@@ -493,10 +646,18 @@ def gs_oracle(case, out):
     off[np.arange(K), np.arange(K)] = 0
     worst("normalised off-diagonal Gram entry (oracle)", np.max(off), ORTH_TOL)
     worst("mode-intensity multiset, relative (oracle)", np.max(np.abs(np.sort(Iin) - np.sort(Iout)) / np.sort(Iin)), INT_TOL)
+    if case.get("_soft_changed") is not None:
+        bad.append(("soft-constraint-changes-probe", "evaluating the probe soft constraints (tv_weight %s) changes probe_model.probe "
+                    "(max |diff| %g)" % (case.get("tv_weight"), case["_soft_changed"])))
     if not bool(np.all(off <= ORTH_TOL)):
         i, j = (int(t) for t in np.unravel_index(int(np.nanargmax(np.where(np.isnan(off), np.inf, off))), off.shape))
-        bad.append(("modes-not-orthogonal", "orthogonalised modes %d and %d have |<p_i,p_j>| / (|p_i||p_j|) = %.3g (%d modes, "
-                    "pairwise input correlation %.2f)" % (i, j, float(off[i, j]), K, case["rho"])))
+        if case.get("center") and not gs_oracle_uncentred_fails(case):
+            bad.append(("center-probe-breaks-orthogonality", "with center_probe the modes %d and %d of probe_model.probe have "
+                        "|<p_i,p_j>| / (|p_i||p_j|) = %.3g (%d modes; orthogonal without center_probe): the modes are not shifted "
+                        "by one common shift" % (i, j, float(off[i, j]), K)))
+        else:
+            bad.append(("modes-not-orthogonal", "orthogonalised modes %d and %d have |<p_i,p_j>| / (|p_i||p_j|) = %.3g (%d modes, "
+                        "pairwise input correlation %.2f)" % (i, j, float(off[i, j]), K, case["rho"])))
     a, b = np.sort(Iin)[::-1], np.sort(Iout)[::-1]
     if not bool(np.all(np.abs(a - b) <= INT_TOL * a)):
         bad.append(("mode-intensities-changed", "mode intensities %s after orthogonalisation are not the input multiset %s"
@@ -535,6 +696,236 @@ def gsd_correspond(case, out, v):
     return bad
 
 
+
+# ------------------------------------------------------------------------------------------
+# probes: the clamp_min branch (zero / exactly dependent / tiny modes) and ties, against
+# orthogonalize_c eps2_code
+
+UNITS = [(1, 0), (-1, 0), (0, 1), (0, -1)]
+
+
+def gen_exact_stack(r):
+    """stacks on which complex64 Gram-Schmidt is EXACT: basis vectors with disjoint supports of 1 or 4
+    pixels and entries unit * 2^a (norm sqrt(|S|) 2^a is a power of two); a mode is c*b (new or seen b),
+    c*b_s + d*b_t with b_s already seen (residual d*b_t or 0), or zero.  Repeated / combined basis
+    vectors are exactly dependent modes (residual exactly 0 -> clamp_min acts), equal |c| |b| are ties."""
+    while True:
+        h, w = r.randint(2, 4), r.randint(2, 4)
+        n = h * w
+        pix = list(range(n))
+        r.shuffle(pix)
+        basis = []
+        while pix and len(basis) < 5:
+            sz = 4 if (len(pix) >= 4 and r.random() < 0.5) else 1
+            sup, pix = pix[:sz], pix[sz:]
+            a = r.choice([0, 0, 1, 2])
+            b = [(0, 0)] * n
+            for k in sup:
+                u = r.choice(UNITS)
+                b[k] = (u[0] << a, u[1] << a)
+            basis.append(b)
+        if len(basis) >= 2:
+            break
+    K = r.choice([2, 3, 3, 4, 5])
+    coef = lambda: tuple(t * r.choice([1, 1, 2, 4]) for t in r.choice(UNITS))
+    cmul = lambda c, z: (c[0] * z[0] - c[1] * z[1], c[0] * z[1] + c[1] * z[0])
+    seen, modes, kinds = [], [], []
+    for _ in range(K):
+        kind = r.choice(["new", "new", "new", "repeat", "combo", "zero"])
+        if kind in ("repeat", "combo") and not seen:
+            kind = "new"
+        if kind == "new" and len(seen) == len(basis):
+            kind = "repeat"
+        if kind == "zero":
+            v = [(0, 0)] * n
+        elif kind == "new":
+            i = r.choice([i for i in range(len(basis)) if i not in seen])
+            seen.append(i)
+            c = coef()
+            v = [cmul(c, z) for z in basis[i]]
+        elif kind == "repeat":
+            c = coef()
+            v = [cmul(c, z) for z in basis[r.choice(seen)]]
+        else:
+            i = r.choice(seen)
+            j = r.choice([j for j in range(len(basis)) if j != i])
+            if j not in seen:
+                seen.append(j)
+            c, d = coef(), coef()
+            v = [(cmul(c, x)[0] + cmul(d, y)[0], cmul(c, x)[1] + cmul(d, y)[1]) for x, y in zip(basis[i], basis[j])]
+        modes.append(v)
+        kinds.append(kind)
+    return {"kind": "xs", "K": K, "roi": [h, w], "sh": 0, "rho": 0.0, "mode_kinds": kinds,
+            "zre": [z[0] for v in modes for z in v], "zim": [z[1] for v in modes for z in v]}
+
+
+def gen_tiny_stack(r):
+    """Gaussian integers * 2^-50: every mode is shorter than 1e-12, the clamp acts without the residual
+    being zero (the normalisation divides by 1e-12 instead of the norm)"""
+    K = r.choice([1, 1, 2, 3])
+    h, w = r.randint(1, 3), r.randint(2, 3)
+    n = h * w
+    while True:
+        z = [(r.randint(-9, 9), r.randint(-9, 9)) for _ in range(K * n)]
+        if all(any(t != (0, 0) for t in z[i * n:(i + 1) * n]) for i in range(K)):
+            break
+    return {"kind": "xt", "K": K, "roi": [h, w], "sh": 50, "rho": 0.0,
+            "zre": [t[0] for t in z], "zim": [t[1] for t in z]}
+
+
+def gen_zero_stack(r):
+    """a generic (correlated, Gaussian-integer) stack in which one mode is exactly zero: the zero mode
+    takes the clamp_min branch, the others the ordinary one"""
+    while True:
+        c = gen_probe_case(r, dyadic=True)
+        if c["K"] >= 2:
+            break
+    K = c["K"]
+    n = c["roi"][0] * c["roi"][1]
+    z = r.randrange(K)
+    zre = [0 if i // n == z else int(v) for i, v in enumerate(c["re"])]
+    zim = [0 if i // n == z else int(v) for i, v in enumerate(c["im"])]
+    return {"kind": "xz", "K": K, "roi": c["roi"], "sh": 0, "rho": c["rho"], "zero_mode": z, "zre": zre, "zim": zim}
+
+
+def xcase_probe(case):
+    K = case["K"]
+    h, w = case["roi"]
+    sc = 2.0 ** -case["sh"]
+    return ((np.array(case["zre"], dtype=np.float64) + 1j * np.array(case["zim"], dtype=np.float64)) * sc
+            ).astype(np.complex64).reshape(K, h, w)
+
+
+def x_out(case):
+    from quantem.diffractive_imaging.probe_models import ProbePixelated
+    P = xcase_probe(case)
+    pm = ProbePixelated.from_array(P.copy())
+    pm.probe = P.copy()
+    return pm.probe.detach().cpu().numpy().copy()
+
+
+def x_expr(case):
+    K = case["K"]
+    n = case["roi"][0] * case["roi"][1]
+    re, im = case["zre"], case["zim"]
+    return "gsc_case %d [%s]%%Z" % (case["sh"], "; ".join(
+        "[" + "; ".join("(%d, %d)" % (re[i * n + k], im[i * n + k]) for k in range(n)) + "]" for i in range(K)))
+
+
+def x_model(v):
+    """-> (modes as complex128 arrays sqrt(s) u, exact intensities, flags [(zero, >= eps)], kept intensities)"""
+    modes, inten = [], []
+    for sq, iq, u in v[0]:
+        s_ = float(fr_of(sq))
+        modes.append(math.sqrt(s_) * np.array([float(fr_of(a)) + 1j * float(fr_of(b)) for a, b in u]))
+        inten.append(fr_of(iq))
+    flags = [(a is True, b is True) for a, b in v[1]]
+    return modes, inten, flags, [fr_of(q) for q in v[2]]
+
+
+def x_check(case, out, v):
+    """-> (oracle failures inside the property's domain, 'what still holds' / correspondence failures)"""
+    orc, bad = [], []
+    K = case["K"]
+    P = xcase_probe(case).astype(np.complex128).reshape(K, -1)
+    O = out.astype(np.complex128).reshape(K, -1)
+    if np.isnan(O).any():
+        return [], [("clamp-branch-correspondence", "probe_model.probe contains NaN for a stack with zero / dependent / tiny modes")]
+    modes, inten, flags, kept = x_model(v)
+    independent = all((not z) and ge for z, ge in flags)       # no vanishing residual, clamp idle
+    clean = all(z or ge for z, ge in flags)
+    Iin = np.sum(np.abs(P) ** 2, axis=1)
+    Iout = np.sum(np.abs(O) ** 2, axis=1)
+    scale = max(float(Iin.max()), 1e-300)
+    if independent:
+        # inside the quantifier: the clauses of the property text
+        pc = {"K": K, "roi": case["roi"], "rho": 0.0, "re": P.real.ravel().tolist(), "im": P.imag.ravel().tolist()}
+        orc = gs_oracle(pc, out)
+    # what still holds for ANY input (C10_gsc_sorted_desc, C10_gsc_total_intensity_le)
+    if not bool(np.all(Iout[:-1] >= Iout[1:] - 1e-5 * scale)):
+        bad.append(("clamp-branch-not-descending", "mode intensities %s are not in descending order (stack with zero / dependent / "
+                    "tiny modes)" % Iout.tolist()))
+    if not float(Iout.sum()) <= float(Iin.sum()) * (1 + 1e-5):
+        bad.append(("clamp-branch-intensity-created", "total intensity %.9g after orthogonalisation exceeds the input total %.9g"
+                    % (float(Iout.sum()), float(Iin.sum()))))
+    if clean:
+        # C10_gsc_orthogonal_dependent / C10_gsc_intensity_dependent: orthogonal; kept or lost entirely
+        G = np.abs(O.conj() @ O.T)
+        G[np.arange(K), np.arange(K)] = 0
+        if not float(G.max()) <= ORTH_TOL * scale:
+            bad.append(("clamp-branch-not-orthogonal", "modes are not orthogonal (max |<p_i,p_j>| %.3g, intensities %s) although every "
+                        "residual is zero or >= 1e-12" % (float(G.max()), Iout.tolist())))
+        want = sorted((float(k) for k in kept), reverse=True)
+        if not np.allclose(sorted(Iout.tolist(), reverse=True), want, rtol=INT_TOL, atol=INT_TOL * scale * 1e-3):
+            bad.append(("clamp-branch-intensities", "mode intensities %s, expected (kept or lost entirely) %s" % (Iout.tolist(), want)))
+    # correspondence with orthogonalize_c: intensity sequence; modes up to the order inside a tie group
+    mi = np.array([float(q) for q in inten])
+    worst("clamp / tie stacks: intensity sequence vs orthogonalize_c, relative", np.max(np.abs(Iout - mi)) / max(float(mi.max()), 1e-300), CORR_TOL)
+    if not np.allclose(Iout, mi, rtol=CORR_TOL, atol=CORR_TOL * max(float(mi.max()), 1e-300) * 1e-3):
+        bad.append(("clamp-branch-correspondence", "mode intensities of probe_model.probe %s, orthogonalize_c eps2_code gives %s"
+                    % (Iout.tolist(), mi.tolist())))
+        return orc, bad
+    groups = {}
+    for i, q in enumerate(inten):
+        groups.setdefault(q, []).append(i)
+    stable = True
+    floor = 1e-3 * math.sqrt(max(float(mi.max()), 0.0))
+    for q, idx in groups.items():
+        tol = CORR_TOL * max(math.sqrt(max(float(q), 0.0)), floor)
+        free = list(idx)
+        for i in idx:
+            d = [float(np.linalg.norm(O[i] - modes[j])) for j in free]
+            jbest = int(np.argmin(d))
+            if not d[jbest] <= tol:
+                bad.append(("clamp-branch-correspondence", "mode %d of probe_model.probe (intensity %.6g, tie group of %d) is none of the "
+                            "modes sqrt(s) u of orthogonalize_c with that intensity (closest differs by %.3g)"
+                            % (i, float(q), len(idx), d[jbest])))
+                return orc, bad
+            free.pop(jbest)
+            if not float(np.linalg.norm(O[i] - modes[i])) <= tol:
+                stable = False
+    case["_ties"] = sum(1 for idx in groups.values() if len(idx) > 1)
+    case["_stable"] = stable
+    return orc, bad
+
+
+def gen_parametric_case(r):
+    return {"kind": "par", "roi": r.choice([[8, 8], [8, 10], [12, 8]]), "defocus": r.choice([0.0, 50.0, 120.0]),
+            "C30": r.choice([0.0, 1e4]), "mean": float(10 ** r.uniform(-2, 6)), "center": r.random() < 0.3}
+
+
+def parametric_run(case):
+    """ProbeParametric (one mode by construction): .probe = apply_hard_constraints(_build_probe()).  One
+    mode: the orthogonalisation must return it with its intensity, which is the mean intensity
+    (real_space_probe is normalised; Parseval) -> list of (key, what)"""
+    from quantem.diffractive_imaging.probe_models import ProbeParametric
+    h, w = case["roi"]
+    pa = ProbeParametric.from_params(probe_params={"energy": 80e3, "defocus": case["defocus"], "C30": case["C30"],
+                                                   "semiangle_cutoff": 20.0}, roi_shape=(h, w))
+    pa.set_initial_probe((h, w), np.array([1.0 / (h * 0.5), 1.0 / (w * 0.5)]), case["mean"])
+    if case["center"]:
+        pa.constraints = {"center_probe": True}
+    out = pa.probe.detach().cpu().numpy().astype(np.complex128)
+    built = pa._build_probe().detach().cpu().numpy().astype(np.complex128)
+    bad = []
+    if out.shape != (1, h, w):
+        return [("probe-shape", "ProbeParametric.probe has shape %s" % (out.shape,))]
+    Io, Ib = float(np.sum(np.abs(out) ** 2)), float(np.sum(np.abs(built) ** 2))
+    Id = float(np.sum(np.abs(np.fft.fft2(out, norm="ortho")) ** 2))
+    worst("ProbeParametric: intensity of .probe vs built probe, relative", abs(Io - Ib) / Ib, INT_TOL)
+    worst("ProbeParametric: diffraction intensity vs mean, relative", abs(Id - case["mean"]) / case["mean"], INT_TOL)
+    if not abs(Io - Ib) <= INT_TOL * Ib:
+        bad.append(("mode-intensities-changed", "ProbeParametric.probe has intensity %.9g, the probe built from the parameters %.9g"
+                    % (Io, Ib)))
+    if not abs(Id - case["mean"]) <= INT_TOL * case["mean"]:
+        bad.append(("initial-probe-total-intensity", "total diffraction intensity of ProbeParametric.probe is %.9g, measured mean "
+                    "intensity %.9g" % (Id, case["mean"])))
+    if not case["center"] and not float(np.abs(out - built).max()) <= CORR_TOL * math.sqrt(Ib):
+        bad.append(("gram-schmidt-correspondence", "one mode: ProbeParametric.probe differs from the built probe by %g"
+                    % float(np.abs(out - built).max())))
+    return bad
+
+
 # ------------------------------------------------------------------------------------------
 # probes: initial-probe intensity and weights
 
@@ -550,6 +941,15 @@ def gen_weight_case(r, dyadic=False):
         case["weights"] = [r.randint(1, 32) / 8 for _ in range(K)]
     else:
         case["weights"] = [float(x) for x in g.uniform(0.02, 1.0, K) * r.choice([1.0, 1.0, 7.0, 0.01])]
+    # round 3: admissible requests at the edge (C10_weight_scales_nonneg): some weights exactly zero
+    # (not all), or all weights negative (the relative weights w / sum w are positive)
+    edge = r.choice(["", "", "", "zeros", "negative"]) if case["weights"] is not None and route == "array" else ""
+    if edge == "zeros" and K >= 2:
+        for i in r.sample(range(K), r.randint(1, K - 1)):
+            case["weights"][i] = 0.0
+    elif edge == "negative":
+        case["weights"] = [-x for x in case["weights"]]
+    case["weights_edge"] = edge if (edge != "zeros" or K >= 2) else ""
     case["mean"] = (r.randint(1, 4096) / 4.0) if dyadic else float(10 ** g.uniform(-2, 6))
     if route == "params":
         case["roi"] = r.choice([[8, 8], [8, 10], [12, 8]])
@@ -755,9 +1155,15 @@ def check_objects(ctx: Ctx):
     for case in cases:
         S = case["shape"][0]
         cfg = case["cfg"]
-        bad = obj_oracle(case)
+        out0 = obj_out(case)
+        bad = obj_oracle(case, out0)
+        if out0.shape == tuple(case["shape"]):
+            bad += obj_soft_check(case, out0)
         masked = cfg["apply_fov_mask"] and case["mask"] is not None
         ctx.dist("obj/type=%s" % case["ty"])
+        ctx.dist("obj/model=%s" % ("ObjectDIP" if case.get("wrap") == "dip" else "ObjectPixelated"))
+        if any(cfg.get(k) for k in SOFT_KEYS):
+            ctx.dist("obj/soft-constraints-set")
         ctx.dist("obj/slices=%d" % S)
         ctx.dist("obj/mask=%s%s" % (case.get("mask_kind"), "(applied)" if masked else ""))
         ctx.dist("obj/magnitude=%s" % case.get("mag_kind"))
@@ -783,6 +1189,7 @@ def check_objects(ctx: Ctx):
             exprs.append(e)
             owner.append(ci)
         ctx.dist("objd/type=%s" % case["ty"])
+        ctx.dist("objd/model=%s" % ("ObjectDIP" if case.get("wrap") == "dip" else "ObjectPixelated"))
         ctx.dist("objd/mask=%s%s" % (case.get("mask_kind"), "(applied)" if case["cfg"]["apply_fov_mask"] and case["mask"] else ""))
         ctx.count(("objd", json.dumps(case, sort_keys=True)), nontrivial=True)
     vals = coq_vals(ctx, "objd", exprs, 40)
@@ -815,7 +1222,9 @@ def check_objects(ctx: Ctx):
     tvals = coq_vals(ctx, "tomo", [tomo_expr(c) for c in tcases], 40)
     nd = 0
     for case, out, v in zip(tcases, touts, tvals):
-        ctx.dist("tomo/positivity=%s,shrinkage=%s" % (case["positivity"], bool(case["shrinkage"])))
+        ctx.dist("tomo/positivity=%s,shrinkage=%s" % (case["positivity"], "off" if not case["shrinkage"] else
+                                                      "positive" if case["shrinkage"] > 0 else "negative"))
+        ctx.dist("tomo/model=%s" % ("ObjectDIP" if case.get("wrap") == "dip" else "ObjectVoxelwise"))
         ctx.count(("tomo", json.dumps(case, sort_keys=True)), nontrivial=case["positivity"] or bool(case["shrinkage"]))
         ctx.cov["traces_validated_against_impl"] += 1
         orc = tomo_oracle(case, out)
@@ -841,6 +1250,11 @@ def check_probes(ctx: Ctx):
         bad = gs_oracle(case, out)
         ctx.dist("gs/modes=%d" % case["K"])
         ctx.dist("gs/correlation=%.2f" % case["rho"])
+        ctx.dist("gs/model=%s" % ("ProbeDIP" if case.get("wrap") == "dip" else "ProbePixelated"))
+        if case.get("center"):
+            ctx.dist("gs/center_probe")
+        if case.get("tv_weight"):
+            ctx.dist("gs/soft-tv_weight-set")
         ctx.count(("gs", json.dumps(case, sort_keys=True)), nontrivial=case["K"] > 1 and case["rho"] > 0)
         for key, what in bad:
             nbad += 1
@@ -874,6 +1288,60 @@ def check_probes(ctx: Ctx):
                 "impl_mode_intensities": np.sum(np.abs(outs[k].astype(np.complex128)) ** 2, axis=(1, 2)).tolist()})
     ctx.log("probe orthogonalisation (correspondence): %d Gaussian-integer stacks, %d disagreements" % (len(dcases), nd))
 
+    # round 3: the clamp_min branch and ties against orthogonalize_c eps2_code
+    xcases = [dict(c) for c in _corpus() if c.get("kind") in ("xs", "xt", "xz")]
+    for _ in range(ctx.budget(60, 400)):
+        xcases.append(gen_exact_stack(r))
+    for _ in range(ctx.budget(16, 80)):
+        xcases.append(gen_tiny_stack(r))
+    for _ in range(ctx.budget(12, 60)):
+        xcases.append(gen_zero_stack(r))
+    outs = [x_out(c) for c in xcases]
+    vals = coq_vals(ctx, "gsx", [x_expr(c) for c in xcases], 8)
+    nd = no = nties = 0
+    stable_all = True
+    for case, out, v in zip(xcases, outs, vals):
+        orc, bad = x_check(case, out, v)
+        flags = x_model(v)[2]
+        cls = ("independent" if all((not z) and ge for z, ge in flags) else
+               "zero/dependent modes (clamp acts, residual 0)" if all(z or ge for z, ge in flags) else "modes shorter than 1e-12 (clamp acts)")
+        ctx.dist("gsx/%s=%s" % (case["kind"], cls))
+        if case.get("_ties"):
+            nties += 1
+            ctx.dist("gsx/ties")
+            stable_all = stable_all and bool(case.get("_stable"))
+        c0 = {k: v_ for k, v_ in case.items() if not k.startswith("_")}
+        ctx.count(("gsx", json.dumps(c0, sort_keys=True)), nontrivial=True)
+        ctx.cov["traces_validated_against_impl"] += 1
+        for key, what in orc:
+            no += 1
+            ctx.violation(key, what, dict(c0))
+        for key, what in bad:
+            nd += 1
+            ctx.cov["disagreements_checked"] += 1
+            ctx.violation(key, "clamp_min branch / ties (orthogonalize_c eps2_code and the theorems C10_gsc_* no longer describe this "
+                          "code): " + what, dict(c0), found_input=bool(orc))
+    ctx.cov["argsort_ties"] = {"stacks_with_ties": nties, "implementation_order_is_the_stable_one": bool(stable_all) if nties else None}
+    k = next((i for i, c in enumerate(xcases) if c["kind"] == "xs" and c.get("_ties") and "repeat" in c.get("mode_kinds", [])), 0)
+    ctx.sample({"kind": "gsx", "case": {kk: xcases[k].get(kk) for kk in ("kind", "K", "roi", "mode_kinds")},
+                "input_mode_intensities": np.sum(np.abs(xcase_probe(xcases[k]).astype(np.complex128)) ** 2, axis=(1, 2)).tolist(),
+                "model_mode_intensities": [str(q) for q in x_model(vals[k])[1]],
+                "impl_mode_intensities": np.sum(np.abs(outs[k].astype(np.complex128)) ** 2, axis=(1, 2)).tolist()})
+    ctx.log("probe orthogonalisation (clamp branch / ties): %d stacks (%d with ties; implementation order stable: %s), "
+            "%d clause failures, %d disagreements" % (len(xcases), nties, stable_all if nties else None, no, nd))
+
+    # round 3: ProbeParametric (its .probe runs the same apply_hard_constraints on the built probe)
+    npar = 0
+    for _ in range(ctx.budget(12, 100)):
+        case = gen_parametric_case(r)
+        bad = parametric_run(case)
+        ctx.dist("parametric/center_probe=%s" % case["center"])
+        ctx.count(("par", json.dumps(case, sort_keys=True)), nontrivial=True)
+        for key, what in bad:
+            npar += 1
+            ctx.violation(key, what, dict(case))
+    ctx.log("ProbeParametric: %d clause failures" % npar)
+
 
 def check_weights(ctx: Ctx):
     r = ctx.rng
@@ -887,6 +1355,8 @@ def check_weights(ctx: Ctx):
         ctx.dist("weights/modes=%d" % case["K"])
         ctx.dist("weights/route=%s" % case["route"])
         ctx.dist("weights/requested=%s" % ("default" if case["weights"] is None else "given"))
+        if case.get("weights_edge"):
+            ctx.dist("weights/edge=%s" % case["weights_edge"])
         ctx.count(("w", json.dumps(case, sort_keys=True)), nontrivial=case["K"] > 1)
         for key, what in bad:
             nbad += 1
@@ -899,6 +1369,8 @@ def check_weights(ctx: Ctx):
     nd = 0
     for case, (ip, req), v in zip(dcases, obs, vals):
         ctx.dist("wd/modes=%d" % case["K"])
+        if case.get("weights_edge"):
+            ctx.dist("wd/edge=%s" % case["weights_edge"])
         ctx.count(("wd", json.dumps(case, sort_keys=True)), nontrivial=case["K"] > 1)
         ctx.cov["traces_validated_against_impl"] += 1
         bad = wd_correspond(case, ip, v)
@@ -920,6 +1392,24 @@ def check_weights(ctx: Ctx):
     same = all(np.allclose(ProbePixelated.from_array(np.ones((n, 2, 2), np.complex64)).initial_probe_weights.numpy(),
                            [1 - 0.02 * (n - 1)] + [0.02] * (n - 1)) for n in range(1, 6))
     ctx.cov["default_weights_match_model"] = bool(same)
+    # requests outside weights_admissible: the setter guards only the length (C10_weights_unguarded_refuted,
+    # C10_weight_scale_negative).  Recorded, not judged: they are outside the property's domain.
+    info = {}
+    P3 = (np.arange(1, 13).reshape(3, 2, 2) * (1 + 0.5j)).astype(np.complex64)
+    for name, ws in (("mixed_sign [2,-1,1]", [2.0, -1.0, 1.0]), ("zero_sum [1,-1,0]", [1.0, -1.0, 0.0]), ("all_zero", [0.0, 0.0, 0.0])):
+        try:
+            pm = ProbePixelated.from_array(P3.copy(), initial_probe_weights=ws, rng=1)
+            pm.set_initial_probe((2, 2), np.array([0.1, 0.1]), 100.0)
+            I = np.sum(np.abs(pm.initial_probe.detach().cpu().numpy().astype(np.complex128)) ** 2, axis=(1, 2))
+            info[name] = "no exception; mode intensities %s" % ["nan" if v != v else "inf" if abs(v) == float("inf") else round(float(v), 4) for v in I]
+        except Exception as e:          # noqa: BLE001 - recorded only
+            info[name] = "%s: %s" % (type(e).__name__, str(e)[:80])
+    try:
+        ProbePixelated.from_array(P3.copy(), initial_probe_weights=[1.0, 1.0])
+        info["wrong_length [1,1] for 3 modes"] = "no exception"
+    except Exception as e:              # noqa: BLE001
+        info["wrong_length [1,1] for 3 modes"] = "%s" % type(e).__name__
+    ctx.cov["weights_outside_the_admissible_domain (recorded, not judged)"] = info
     ctx.log("initial probe (correspondence): %d dyadic cases, %d disagreements; library default weights = model default: %s"
             % (len(dcases), nd, same))
 
@@ -946,13 +1436,15 @@ def check_insitu(ctx: Ctx):
 
 def run(ctx: Ctx):
     ctx.hash_sources("diffractive_imaging/object_models.py",
-                     ["ObjectConstraints.apply_hard_constraints", "ObjectPixelated.obj", "ObjectBase.mask"])
+                     ["ObjectConstraints.apply_hard_constraints", "ObjectPixelated.obj", "ObjectBase.mask", "ObjectDIP.obj",
+                      "ObjectConstraints.apply_soft_constraints"])
     ctx.hash_sources("diffractive_imaging/probe_models.py",
                      ["ProbeConstraints._probe_orthogonalization_constraint", "ProbeConstraints.apply_hard_constraints",
                       "ProbePixelated._apply_weights", "ProbePixelated.set_initial_probe", "ProbePixelated.initial_probe_weights",
-                      "ProbePixelated._apply_random_phase_shifts"])
+                      "ProbePixelated._apply_random_phase_shifts", "ProbeConstraints._probe_center_of_mass_constraint",
+                      "ProbePixelated.probe", "ProbeDIP.probe", "ProbeParametric.probe", "ProbeParametric._build_probe"])
     ctx.hash_sources("diffractive_imaging/constraints.py", ["BaseConstraints"])
-    ctx.hash_sources("tomography/object_models.py", ["ObjectConstraints.apply_hard_constraints"])
+    ctx.hash_sources("tomography/object_models.py", ["ObjectConstraints.apply_hard_constraints", "ObjectVoxelwise.obj", "ObjectDIP.obj"])
     ctx.cov["rule"] = (
         "objects: (type, 1-4 slices, 1..6 x 1..6 pixels, raw magnitudes unit / large / small / mixed with exact 0 and 1 / "
         "10^+-30, any phase, FOV mask none / ones / binary / soft / blurred edge, random constraint dictionary without "
@@ -965,16 +1457,29 @@ def run(ctx: Ctx):
         "default weights, mean 1e-2..1e6 -> total diffraction intensity and relative mode intensities; Gaussian-integer stacks, "
         "dyadic weights and means -> mode intensities and |initial_probe| against apply_weights / weight_scales.  in situ: "
         "complete toy Ptychography objects.  A case is distinct by its full input; non-trivial when a mask is applied, slices "
-        "are tied or a clause is active (objects), more than one correlated mode (probes)")
+        "are tied or a clause is active (objects), more than one correlated mode (probes).  Round 3 dimensions: object model "
+        "ObjectPixelated / ObjectDIP (pass-through network), probe model ProbePixelated / ProbeDIP, ProbeParametric (one mode, "
+        "defocus / C30 / centre), tomography ObjectVoxelwise / ObjectDIP with positivity x shrinkage off / 0.0 / positive / "
+        "negative and the ignored keys; soft-constraint entries (tv weights, surface_zero_weight, butterworth_order without a "
+        "cut-off, probe tv_weight, tv_vol) set and evaluated -> object unchanged bit for bit; center_probe on 30 % of the "
+        "stacks; stacks on which complex64 Gram-Schmidt is exact (disjoint-support basis vectors with power-of-two entries: "
+        "repeated / combined / zero modes = exactly dependent, equal norms = ties), Gaussian integers * 2^-50 (modes shorter "
+        "than 1e-12), correlated Gaussian-integer stacks with one zero mode -> orthogonalize_c eps2_code (intensity sequence, "
+        "modes up to the order inside a tie group) and the clauses that survive; requested weights with exact zeros or all "
+        "negative")
     ctx.assumptions += [
         "torch.abs / torch.angle / torch.exp / torch.clamp on complex64 and float32 tensors are the real functions to within "
         "the stated tolerances (amplitude 3e-6, re-application 5e-6, model-vs-implementation 2e-5 on unit-scale pixels)",
         "torch.fft.fft2(norm='ortho') is unitary (Parseval): the total diffraction intensity of a mode equals its real-space "
         "intensity; the oracle measures the diffraction intensity with numpy.fft on the returned initial_probe",
-        "linear independence of the mode stack (premise of C10_gs_orthogonal / C10_gs_intensity_multiset): the clamp_min(1e-12) "
-        "on the residual norm never acts; generated stacks have residual norms >= 1e-4",
-        "torch.argsort(descending=True) returns a permutation that sorts (ties are not exercised: generated mode intensities "
-        "differ by >= 5 % in the correspondence cases)",
+        "linear independence of the mode stack is the premise of C10_gs_orthogonal / C10_gs_intensity_multiset; the clamp_min(1e-12) "
+        "guard is modelled (orthogonalize_c) and proved idle when every exact residual is >= 1e-12 long "
+        "(C10_gsc_clamp_idle_is_model); in complex64 a numerically dependent mode leaves a rounding-noise residual that is "
+        "normalised to full intensity - outside the quantifier, exercised only where the arithmetic is exact",
+        "torch.argsort(descending=True) returns a permutation that sorts; the order inside a group of equal intensities is "
+        "not assumed (C10_gs_any_tiebreak_same_intensities), the observed order is recorded in coverage.argsort_ties",
+        "the Fourier shift of center_probe (fourier_shift_expand with ONE shift) is unitary on the whole stack: premise "
+        "`isometry` of C10_common_isometry_preserves; validated by the orthogonality / intensity oracle on centred stacks",
     ]
     ctx.cov["trusted_base"] += [
         "Coq 8.16.1 kernel incl. vm_compute (used to run the model); no native_compute",
@@ -984,6 +1489,9 @@ def run(ctx: Ctx):
         "complex / pure-phase objects are modelled in amplitude-phase form over Q (amplitude = torch.abs, phase = torch.angle); "
         "Gram-Schmidt over Q(i) with the normalise-and-restore step as the squared scale |p|^2/|u|^2 (no square roots in the "
         "theorems); floating point is not modelled",
+        "round 3: the clamp is modelled on squared norms (max(|u|, eps)^2 = max(|u|^2, eps^2), eps^2 = 1e-24 exactly; the code "
+        "compares in float32 with float32(1e-12), relative difference 4e-9); the DIP wrappers are reached through a "
+        "pass-through torch module defined in harness/props/C10.py (forward(x) = 0 * x + parameter)",
     ]
     ctx.proofs_or_violation()
     import torch
@@ -1010,12 +1518,12 @@ def replay(ctx: Ctx, path):
         oc = dict(rp)
         oc["kind"] = "obj"
         out = obj_out(oc)
-        print("input: %s object, shape %s, constraints %s" % (rp["ty"], rp["shape"], rp["cfg"]))
+        print("input: %s object (%s), shape %s, constraints %s" % (rp["ty"], rp.get("wrap", "pixelated"), rp["shape"], rp["cfg"]))
         print("FOV mask:", rp["mask"])
         print("raw parameters:", case_raw(oc).ravel().tolist())
         print("obj_model.obj:", out.ravel().tolist())
         print("amplitude:", np.abs(out).ravel().tolist())
-        bad = obj_oracle(oc, out)
+        bad = obj_oracle(oc, out) + obj_soft_check(oc, out)
         if kind == "objd":
             obs, exprs = objd_prepare(rp)
             vals = coq_vals(ctx, "replay", exprs, 10)
@@ -1034,13 +1542,28 @@ def replay(ctx: Ctx, path):
     elif kind in ("gs", "gsd"):
         out = gs_out(rp)
         O = out.astype(np.complex128).reshape(rp["K"], -1)
-        print("input: %d modes, roi %s, pairwise correlation %.2f" % (rp["K"], rp["roi"], rp["rho"]))
+        print("input: %d modes, roi %s, pairwise correlation %.2f, center_probe %s, model %s"
+              % (rp["K"], rp["roi"], rp["rho"], bool(rp.get("center")), rp.get("wrap", "pixelated")))
         print("input mode intensities:", np.sum(np.abs(case_probe(rp).astype(np.complex128)) ** 2, axis=(1, 2)).tolist())
         print("output mode intensities:", np.sum(np.abs(O) ** 2, axis=1).tolist())
         print("|Gram| of the output:", np.abs(O.conj() @ O.T).tolist())
         bad = gs_oracle(rp, out)
         if kind == "gsd":
             bad += gsd_correspond(rp, out, coq_vals(ctx, "replay", [gsd_expr(rp)], 1)[0])
+    elif kind in ("xs", "xt", "xz"):
+        out = x_out(rp)
+        v = coq_vals(ctx, "replay", [x_expr(rp)], 1)[0]
+        modes, inten, flags, kept = x_model(v)
+        print("input: %d modes, roi %s, kind %s %s" % (rp["K"], rp["roi"], kind, rp.get("mode_kinds", "")))
+        print("input mode intensities:", np.sum(np.abs(xcase_probe(rp).astype(np.complex128)) ** 2, axis=(1, 2)).tolist())
+        print("exact residual flags (zero, >= 1e-12):", flags)
+        print("output mode intensities:", np.sum(np.abs(out.astype(np.complex128)) ** 2, axis=(1, 2)).tolist())
+        print("orthogonalize_c eps2_code:", [float(q) for q in inten], "kept:", [float(q) for q in kept])
+        orc, b2 = x_check(rp, out, v)
+        bad = orc + b2
+    elif kind == "par":
+        print("input:", rp)
+        bad = parametric_run(rp)
     elif kind in ("w", "wd"):
         ip, req = weights_out(rp)
         I = np.sum(np.abs(np.fft.fft2(ip.astype(np.complex128), norm="ortho")) ** 2, axis=(1, 2))
